@@ -1,15 +1,26 @@
 ------------------------------- MODULE Config -------------------------------
-(* C16: the README as a function.  A configuration is a tuple of NAMES (side, protocol, cipher, mode, transport
-   sections, credential form); Documented(cfg) says what the README promises for it:
-     accept   the process starts and serves,
-     tcp      a TCP listener is opened on the configured port,
-     udp      a UDP socket is opened on the configured port (datagram relay, or QUIC),
-     kind     what that UDP socket speaks: "dgram" | "quic" | "none"
-   and everything that is not documented - an unknown cipher / protocol / mode name, a Shadowsocks 2022 key that is not
-   exactly the cipher's key length, a key that is not base64 - must end with accept = FALSE (an error; no listener that
-   serves; never a panic).  TLC enumerates every tuple below (Export prints one REPLAY line per tuple with the promise);
-   Engine B starts the REAL binary on each tuple and compares what it observes (bound sockets in /proc/net, exit, log).
-   The invariants check the table itself: totality, and that no two documented names collapse.                       *)
+(* C16: the README as a function.  A configuration is a tuple of NAMES
+     side      which binary is configured                      "server" | "client"
+     proto     protocol name                                   documented or not
+     cipher    cipher name                                     documented (7 + the alias) or not
+     mode      listening mode name ("absent" = the field is left out)
+     key       credential form: an ordinary password (legacy ciphers, Trojan; a UUID for VMess) or, for the 2022 ciphers,
+               a base64 key of exactly / not exactly the cipher's key length, a user key of the wrong length, ...
+     link      transport sections present: tcp (none) | tls (ssl) | ws | wss (ssl + ws) | quic
+   and Documented(cfg) is what the README promises for it:
+     accept    the process starts and serves
+     tcp / udp is a TCP listener / a UDP socket opened on the configured port   "yes" | "no" | "any" (not specified)
+     probes    exchanges that must then succeed:
+                 ref_tcp   an independent reference client, knowing only the cipher NAME and the PASSWORD STRING, gets an
+                           echo through the server's TCP port (=> algorithm, key size and key derivation are the named ones)
+                 ref_udp   the same with one datagram on the server's UDP port
+                 flow      a real peer configured with the documented name for the same link relays a TCP echo
+                 udp_flow  a real peer relays a datagram echo entered at the client's local UDP port
+   Everything that is not documented - an unknown cipher / protocol / mode name, a Shadowsocks 2022 key that is not exactly
+   the cipher's key length, a key that is not base64 - must end with accept = FALSE: an error, no listener left behind,
+   never a panic, never a silent fallback.
+   TLC enumerates every tuple (Export prints one REPLAY line per tuple with its promise); Engine B starts the REAL binary
+   on each tuple and records what it observes; TraceConfig validates every record against Documented.                *)
 EXTENDS Naturals, Sequences, FiniteSets, TLC, Json
 
 Legacy   == {"aes-128-gcm", "aes-256-gcm", "chacha20-poly1305", "chacha20-ietf-poly1305"}
@@ -25,10 +36,14 @@ ClientModes == {"absent", "tcp", "udp", "tcp_and_udp"}
 ServerModes == {"absent", "tcp", "udp", "tcp_and_udp", "quic", "tcp_and_quic"}
 BadModes == {"both", "TCP"}
 
+Links == {"tcp", "tls", "ws", "wss", "quic"}
+
 KeyBytes(c) == IF c \in {"aes-128-gcm", "2022-blake3-aes-128-gcm"} THEN 16 ELSE 32
 
-\* credential forms: legacy ciphers take any password; 2022 ciphers a base64 key of exactly KeyBytes
-KeyForms2022 == {"exact", "short1", "half", "long1", "double", "notbase64", "empty"}
+\* credential forms: legacy ciphers take any password; 2022 ciphers a base64 key of exactly KeyBytes.
+\* "userShort" / "userLong": the server key is right, a registered user's key (server) or the identity-key part of
+\* "iPSK:uPSK" (client) has the wrong length.
+KeyForms2022 == {"exact", "short1", "half", "long1", "double", "notbase64", "empty", "userShort", "userLong"}
 KeyOk(c, k) == IF c \in Aead2022 THEN k = "exact" ELSE k = "password"
 
 Sides == {"server", "client"}
@@ -37,13 +52,19 @@ VARIABLES cfg, phase
 vars == <<cfg, phase>>
 
 Tuples ==
-  \* Shadowsocks: every cipher name (documented or not) x every mode name x credential form
-  { [side |-> s, proto |-> "shadowsocks", cipher |-> c, mode |-> m, key |-> k] :
-      s \in Sides, c \in DocCiphers \cup BadCiphers, m \in ServerModes \cup BadModes,
+  \* Shadowsocks, plain link: every cipher name (documented or not) x every mode name x credential form
+  { [side |-> s, proto |-> "shadowsocks", cipher |-> c, mode |-> m, key |-> k, link |-> "tcp"] :
+      s \in Sides, c \in DocCiphers \cup BadCiphers, m \in (ServerModes \ {"quic", "tcp_and_quic"}) \cup BadModes,
       k \in {"password"} \cup KeyForms2022 }
-  \cup
-  { [side |-> s, proto |-> p, cipher |-> c, mode |-> m, key |-> "password"] :
-      s \in Sides, p \in {"vmess", "trojan"} \cup BadProtocols, c \in VMessCiphers, m \in {"absent", "tcp", "tcp_and_udp"} }
+  \cup  \* Shadowsocks servers in the two QUIC modes carry a quic section
+  { [side |-> "server", proto |-> "shadowsocks", cipher |-> c, mode |-> m, key |-> k, link |-> "quic"] :
+      c \in DocCiphers, m \in {"quic", "tcp_and_quic"}, k \in {"password", "exact"} }
+  \cup  \* Shadowsocks over the other links (the mode stays a TCP one)
+  { [side |-> s, proto |-> "shadowsocks", cipher |-> c, mode |-> "absent", key |-> k, link |-> l] :
+      s \in Sides, c \in {"aes-256-gcm", "2022-blake3-aes-128-gcm"}, k \in {"password", "exact"}, l \in Links \ {"tcp"} }
+  \cup  \* VMess and Trojan (and names that are no protocol) on every link
+  { [side |-> s, proto |-> p, cipher |-> c, mode |-> m, key |-> "password", link |-> l] :
+      s \in Sides, p \in {"vmess", "trojan"} \cup BadProtocols, c \in VMessCiphers, m \in {"absent", "tcp", "udp", "tcp_and_udp"}, l \in Links }
 
 Relevant(t) ==
   /\ (t.proto = "shadowsocks" /\ t.cipher \in Aead2022) => t.key \in KeyForms2022
@@ -51,6 +72,18 @@ Relevant(t) ==
   /\ (t.side = "client") => t.mode \in ClientModes \cup BadModes
   \* to keep the product small: credential forms other than the right one only with the default and the combined mode
   /\ (t.key \notin {"exact", "password"}) => t.mode \in {"absent", "tcp_and_udp"}
+  \* the protocol-name cases once per link is enough
+  /\ (t.proto \in BadProtocols) => (t.cipher = "aes-128-gcm" /\ t.mode = "absent" /\ t.link \in {"tcp", "tls"})
+  \* VMess / Trojan: the mode names matter on the client only; a server is started with the default and one other
+  /\ (t.proto \in {"vmess", "trojan"} /\ t.side = "server") => t.mode \in {"absent", "tcp_and_udp"}
+  /\ (t.proto = "trojan") => t.cipher = "aes-128-gcm"
+  \* client mode "udp" alone is exercised on the plain and the QUIC link
+  /\ (t.proto \in {"vmess", "trojan"} /\ t.side = "client" /\ t.mode = "udp") => t.link \in {"tcp", "tls", "quic"}
+
+\* README transport table: which links carry datagrams for which protocol
+UdpLink(p, l) == \/ p = "shadowsocks" /\ l = "tcp"     \* its own UDP port next to the TCP one
+                 \/ p = "vmess"
+                 \/ p = "trojan" /\ l \in {"tls", "wss", "quic"}
 
 Documented(t) ==
   LET okNames == /\ t.proto \in DocProtocols
@@ -59,16 +92,24 @@ Documented(t) ==
       okKey == t.proto # "shadowsocks" \/ KeyOk(t.cipher, t.key)
       acc == okNames /\ okKey
       m == t.mode
-  IN IF ~acc THEN [accept |-> FALSE, tcp |-> FALSE, udp |-> FALSE, kind |-> "none"]
+      No == [accept |-> FALSE, tcp |-> "no", udp |-> "no", probes |-> {}]
+  IN IF ~acc THEN No
      ELSE IF t.side = "client"
-       THEN [accept |-> TRUE, tcp |-> m \in {"absent", "tcp", "tcp_and_udp"}, udp |-> m \in {"udp", "tcp_and_udp"},
-             kind |-> IF m \in {"udp", "tcp_and_udp"} THEN "dgram" ELSE "none"]
+       THEN LET tcpOn == m \in {"absent", "tcp", "tcp_and_udp"}
+                udpOn == m \in {"udp", "tcp_and_udp"}
+            IN [accept |-> TRUE, tcp |-> IF tcpOn THEN "yes" ELSE "no", udp |-> IF udpOn THEN "yes" ELSE "no",
+                probes |-> (IF tcpOn THEN {"flow"} ELSE {}) \cup (IF udpOn /\ UdpLink(t.proto, t.link) THEN {"udp_flow"} ELSE {})]
      ELSE IF t.proto = "shadowsocks"
-       THEN [accept |-> TRUE, tcp |-> m \in {"absent", "tcp", "tcp_and_udp", "tcp_and_quic"},
-             udp |-> m \in {"udp", "tcp_and_udp", "quic", "tcp_and_quic"},
-             kind |-> IF m \in {"udp", "tcp_and_udp"} THEN "dgram" ELSE IF m \in {"quic", "tcp_and_quic"} THEN "quic" ELSE "none"]
-     ELSE \* vmess / trojan servers: TCP always; the mode names are a Shadowsocks matter
-          [accept |-> TRUE, tcp |-> TRUE, udp |-> FALSE, kind |-> "none"]
+       THEN LET tcpOn == m \in {"absent", "tcp", "tcp_and_udp", "tcp_and_quic"}
+                dgram == m \in {"udp", "tcp_and_udp"}
+                quic  == m \in {"quic", "tcp_and_quic"}
+            IN [accept |-> TRUE, tcp |-> IF tcpOn THEN "yes" ELSE "no", udp |-> IF dgram \/ quic THEN "yes" ELSE "no",
+                probes |-> (IF tcpOn /\ t.link \in {"tcp", "quic"} THEN {"ref_tcp"} ELSE {})
+                           \cup (IF dgram THEN {"ref_udp"} ELSE {})
+                           \cup (IF quic \/ (tcpOn /\ t.link \notin {"tcp", "quic"}) THEN {"flow"} ELSE {})]
+     ELSE \* vmess / trojan servers: TCP always (the mode names are a Shadowsocks matter); QUIC when a quic section is there
+          [accept |-> TRUE, tcp |-> IF t.link = "quic" THEN "any" ELSE "yes", udp |-> IF t.link = "quic" THEN "yes" ELSE "no",
+           probes |-> {"flow"} \cup (IF t.proto = "trojan" /\ t.link = "tcp" THEN {"ref_tcp"} ELSE {})]
 
 Init == cfg \in {t \in Tuples : Relevant(t)} /\ phase = "chosen"
 Next == phase = "chosen" /\ phase' = "done" /\ UNCHANGED cfg
@@ -76,9 +117,57 @@ Spec == Init /\ [][Next]_vars
 
 Export == phase = "done" => PrintT("REPLAY " \o ToJson([cfg |-> cfg, want |-> Documented(cfg)]))
 
-\* the table is sane: something that is not accepted opens nothing; tcp_and_udp opens both; tcp_and_quic opens TCP and QUIC
+\* the table is sane: something that is not accepted opens nothing; tcp_and_udp opens both; tcp_and_quic opens TCP and QUIC;
+\* a legacy cipher takes the same ordinary password on TCP and on UDP (both reference probes with the one password)
 Sane == LET d == Documented(cfg) IN
-        /\ (~d.accept => ~d.tcp /\ ~d.udp)
-        /\ (d.accept /\ cfg.mode = "tcp_and_udp" /\ (cfg.side = "client" \/ cfg.proto = "shadowsocks")) => (d.tcp /\ d.udp /\ d.kind = "dgram")
-        /\ (d.accept /\ cfg.side = "server" /\ cfg.proto = "shadowsocks" /\ cfg.mode = "tcp_and_quic") => (d.tcp /\ d.udp /\ d.kind = "quic")
+        /\ (~d.accept => d.tcp = "no" /\ d.udp = "no" /\ d.probes = {})
+        /\ (d.accept /\ cfg.mode = "tcp_and_udp" /\ (cfg.side = "client" \/ cfg.proto = "shadowsocks")) => (d.tcp = "yes" /\ d.udp = "yes")
+        /\ (d.accept /\ cfg.side = "server" /\ cfg.proto = "shadowsocks" /\ cfg.mode = "tcp_and_quic") => (d.tcp = "yes" /\ d.udp = "yes" /\ {"ref_tcp", "flow"} \subseteq d.probes)
+        /\ (d.accept /\ cfg.side = "server" /\ cfg.proto = "shadowsocks" /\ cfg.mode = "tcp_and_udp" /\ cfg.link = "tcp") => {"ref_tcp", "ref_udp"} \subseteq d.probes
+        /\ (d.accept /\ cfg.side = "client" /\ cfg.mode = "udp") => (d.tcp = "no" /\ d.udp = "yes")
+
+(* What an observation of the real binary must look like for cfg.  obs = [alive, tcp, udp, panic, ok (probes that
+   succeeded), ran (probes that were run)]. *)
+Conforms(t, obs) ==
+  LET d == Documented(t) IN
+  /\ ~obs.panic
+  /\ IF d.accept
+       THEN /\ obs.alive
+            /\ (d.tcp = "yes" => obs.tcp) /\ (d.tcp = "no" => ~obs.tcp)
+            /\ (d.udp = "yes" => obs.udp) /\ (d.udp = "no" => ~obs.udp)
+            /\ d.probes \subseteq obs.ran
+            /\ \A p \in d.probes : p \in obs.ok
+       ELSE \* refused: nothing is left listening (the process may exit or idle with an error)
+            /\ ~obs.tcp /\ ~obs.udp
+
+(* The start-up code as a decision function, shaped like the code: serde names -> enums (one Mode enum shared by both
+   binaries), mode predicates enable_tcp / enable_udp / enable_quic, key parsing with a fixed N-byte buffer, the
+   per-protocol start-up.  Dev names what the code used to do (each is a fixed defect; TLC must see the difference). *)
+CONSTANT Dev
+ModeNames == {"tcp", "udp", "tcp_and_udp", "quic", "tcp_and_quic"}
+EnableTcp(m)  == m \in {"absent", "tcp", "tcp_and_udp"} \/ (m = "tcp_and_quic" /\ "QuicNoTcp" \notin Dev)
+EnableUdp(m)  == m \in {"udp", "tcp_and_udp"}
+EnableQuic(m) == m \in {"quic", "tcp_and_quic"}
+KeyParses(c, k) ==      \* Base64::decode into [u8; N]: refuses what is not base64 or does not fit
+  IF c \notin Aead2022 THEN TRUE
+  ELSE CASE k = "exact" -> TRUE
+         [] k \in {"short1", "half", "userShort"} -> "ShortKeyPadded" \in Dev
+         [] OTHER -> FALSE
+Impl(t) ==
+  LET parsed == /\ t.proto \in DocProtocols /\ t.cipher \in DocCiphers /\ (t.mode = "absent" \/ t.mode \in ModeNames)
+      keyOk  == t.proto # "shadowsocks" \/ KeyParses(t.cipher, t.key)
+      Dead   == [alive |-> FALSE, tcp |-> FALSE, udp |-> FALSE, panic |-> FALSE, ok |-> {}, ran |-> {}]
+      all    == {"ref_tcp", "ref_udp", "flow", "udp_flow"}
+  IN IF ~parsed THEN Dead
+     ELSE IF t.side = "client"
+       THEN IF ~EnableTcp(t.mode) /\ (~EnableUdp(t.mode) \/ "UdpModeExits" \in Dev) THEN Dead     \* main returns at once
+            ELSE IF ~keyOk THEN Dead        \* "create client context failed": main returns, the sockets go with it
+            ELSE [alive |-> TRUE, tcp |-> EnableTcp(t.mode), udp |-> EnableUdp(t.mode), panic |-> FALSE, ok |-> all, ran |-> all]
+     ELSE IF t.proto = "shadowsocks"
+       THEN IF ~keyOk THEN Dead
+            ELSE [alive |-> TRUE, tcp |-> EnableTcp(t.mode), udp |-> EnableUdp(t.mode) \/ (EnableQuic(t.mode) /\ t.link = "quic"),
+                  panic |-> FALSE, ok |-> all \ (IF EnableTcp(t.mode) THEN {} ELSE {"ref_tcp"}), ran |-> all]
+     ELSE [alive |-> TRUE, tcp |-> TRUE, udp |-> t.link = "quic", panic |-> FALSE, ok |-> all, ran |-> all]
+
+ImplConforms == Conforms(cfg, Impl(cfg))
 =============================================================================
